@@ -66,9 +66,10 @@ class _EndlessRetry(BaseException):
     """Stops the interpretation of a loop that does not give up (not catchable by the interpreted handlers)."""
 
 
-def _exc(kind: str, tag: str) -> AObj:
+def _exc(kind: str, tag: str, cause: Optional[AObj] = None) -> AObj:
     return AObj(('ext', f'builtins.{kind}' if kind != 'CancelledError' else 'asyncio.CancelledError'),
-                {'args': (), '__what__': f'{kind} ({tag})'}, tag=f'exc:{kind}:{tag}')
+                {'args': (), '__what__': f'{kind} ({tag})', '__cause__': cause, '__context__': cause, '__traceback__': None,
+                 '__suppress_context__': cause is not None, '__notes__': []}, tag=f'exc:{kind}:{tag}')
 
 
 class Scenario:
@@ -124,7 +125,8 @@ def run_scenario_capture(ctx: Ctx, sc: Scenario, captured: Dict[str, Any], seen:
                 raise _EndlessRetry()
             step = sc.script[min(i, len(sc.script) - 1)]
             if step[0] == 'raise':
-                e = _exc(step[1], f'attempt {i + 1}')
+                cause = _exc(step[2], f'cause, attempt {i + 1}') if len(step) > 2 else None
+                e = _exc(step[1], f'attempt {i + 1}', cause)
                 raised.append(e)
                 raise ARaise(e.attrs['__what__'], e)
             return value
@@ -311,6 +313,12 @@ def rule_retry_worlds(ctx: Ctx, out: Collector) -> None:
         if n_body(o) != 3 or o['outcome'] != ('value', o['value']):
             problems['RT-5'].append(f'an Exception matching the exceptions setting (BaseException,) is not retried up to attempts=3 '
                                     f'({n_body(o)} invocation(s), {_show(o["outcome"])})')
+    # ---- what is matched against the setting is the raised exception itself, not what it was raised from
+    for o in obs('KeyError raised from a ValueError while only ValueError is retryable',
+                 Scenario([('raise', 'KeyError', 'ValueError'), V], attempts=3, exceptions=('ValueError',))):
+        if n_body(o) != 1 or o['log']['sleep'] or not (o['outcome'] and o['outcome'][0] == 'raise' and o['outcome'][2] is o['raised'][0]):
+            problems['RT-6'].append(f'an exception outside the setting whose __cause__ is inside it: {n_body(o)} invocation(s), {_show(o["outcome"])} '
+                                    f'(not retryable: one invocation, that exception leaves)')
     # ---- RT-2: non-Exception errors
     for kind in ('CancelledError', 'SystemExit', 'KeyboardInterrupt'):
         for excs in (None, ('BaseException',)):
